@@ -57,11 +57,11 @@ CHECKS = {
    note="Partial: the data-race, crash and deadlock clauses are runtime observations; Frame is proved at request granularity for the System model, atomic-step granularity is validated dynamically. Trusted: extract_c11, Go race detector and runtime.",
    technique="Lean 4 proof (schedule induction from a frame hypothesis) + global-write table regenerated from the Go source + concurrent differential runs under the race detector", ref="5 (C11)"),
  "C12": dict(
-   text="Lean 4 theorems (Props/C12.lean, 11): sections of one reader/writer lock are atomic for all programs keeping the discipline, all thread counts and schedules; the lock-discipline table regenerated from core/state_*.go and core/events.go "
+   text="Lean 4 theorems (Props/C12.lean, 14): sections of one reader/writer lock are atomic for all programs keeping the discipline, all thread counts and schedules; the lock-discipline table regenerated from core/state_*.go and core/events.go "
         "keeps the discipline except the enumerated known sites (kernel-decided); the fragment avoiding them is linearizable on memory; memory = storage whenever no writer is inside its section, for any number of writers of an id "
-        "(memory_store_agree: invariant over all schedules; the storage calls were moved into the locked sections by a repair of /repo) and for single-writer ids regardless of the lock; a witness schedule per remaining exception class. "
+        "(memory_store_agree: invariant over all schedules; the storage calls were moved into the locked sections by a repair of /repo) and for single-writer ids regardless of the lock; the rule cache never holds a stale rule once the writers have returned (rule_cache_never_stale: generation protocol, all schedules, any number of events and writers; repaired in /repo); a witness schedule per remaining exception class. "
         "The real code runs under the race detector with forced and random schedules, with exhaustive linearizability search of small histories against the Lean location model.",
-   note="Partial: FindCachedRules and expiry are refuted (known findings); composite requests (ProcessEvent, RemRule, EnableRule) are not proved atomic and their non-linearizable histories are accepted "
+   note="Partial: expiry under the shared lock is refuted (known finding); composite requests (ProcessEvent, RemRule, EnableRule) are not proved atomic and their non-linearizable histories are accepted "
         "as a known class; races, crashes and deadlock are only observed. Trusted: the syntactic extractor, the Go race detector and runtime, the flattening of control flow into access lists.",
    technique="Lean 4 proof (refinement to an atomic-section machine) + lock-discipline table regenerated from the Go source + race-detector stress + linearizability checking", ref="5 (C12)"),
  "C13": dict(
